@@ -91,7 +91,26 @@ def check(ctx: Ctx) -> list[RuleResult]:
     loops = [n for n in own_nodes(probe.node) if isinstance(n, ast.While)]
     max_trys = ctx.consts.get(T, "_SIGNATURE_MAX_TRYS")
     gap = ctx.consts.get(T, "_SIGNATURE_GAP_SECS")
-    okp = len(loops) == 1 and norm(loops[0].test) == "num_sends < _SIGNATURE_MAX_TRYS" and any(norm(b) == "num_sends += 1" for b in loops[0].body) and isinstance(max_trys, int) and 0 < max_trys <= 60 and isinstance(gap, (int, float)) and gap > 0 and any("asyncio.sleep(_SIGNATURE_GAP_SECS)" in norm(b) for b in loops[0].body)
+    def _bounded_spaced(lp: ast.AST) -> bool:
+        """`while c < N: ...; c += k; await sleep(G)` (or `for _ in range(N)`) with N, k, G folding to positive constants"""
+        def fold(e: ast.expr):
+            try:
+                return ctx.consts.eval_in(probe, e)
+            except Exception:
+                return None
+        body = list(getattr(lp, "body", []))
+        slept = any(isinstance(a, ast.Await) and isinstance(a.value, ast.Call) and norm(a.value.func).endswith("sleep") and a.value.args and isinstance(fold(a.value.args[0]), (int, float)) and fold(a.value.args[0]) > 0 for b in body for a in ast.walk(b))
+        if isinstance(lp, ast.For):
+            it = lp.iter
+            return slept and isinstance(it, ast.Call) and norm(it.func) == "range" and it.args and isinstance(fold(it.args[-1] if len(it.args) == 1 else it.args[1]), int) and 0 < fold(it.args[-1] if len(it.args) == 1 else it.args[1]) <= 60
+        if not (isinstance(lp, ast.While) and isinstance(lp.test, ast.Compare) and len(lp.test.ops) == 1 and isinstance(lp.test.ops[0], (ast.Lt, ast.LtE)) and isinstance(lp.test.left, ast.Name)):
+            return False
+        cname, bound = lp.test.left.id, fold(lp.test.comparators[0])
+        stepped = any((isinstance(b, ast.AugAssign) and isinstance(b.op, ast.Add) and norm(b.target) == cname and isinstance(fold(b.value), int) and fold(b.value) > 0) or (isinstance(b, ast.Assign) and norm(b.targets[0]) == cname and isinstance(b.value, ast.BinOp) and isinstance(b.value.op, ast.Add) and norm(b.value.left) == cname and isinstance(fold(b.value.right), int) and fold(b.value.right) > 0) for b in body)
+        return slept and stepped and isinstance(bound, int) and 0 < bound <= 60
+
+    loops = [n for n in own_nodes(probe.node) if isinstance(n, (ast.While, ast.For)) and any(isinstance(c, ast.Call) and isinstance(c.func, ast.Attribute) and c.func.attr == "_write_frame" for c in ast.walk(n))]
+    okp = len(loops) == 1 and _bounded_spaced(loops[0]) and isinstance(max_trys, int) and 0 < max_trys <= 60 and isinstance(gap, (int, float)) and gap > 0
     if okp:
         r1.ok({"signature_probe": f"<= {max_trys} frames, {gap}s apart"})
     else:
